@@ -149,7 +149,7 @@ class Reset(Contract):
     present with its value; nothing else of the object changes."""
     name = 'objects:Fxp.reset'
     layer = 4
-    props = {'*': ['C04']}
+    props = {'*': ['C04'], 'rest_usable': ['C04', 'C18']}      # the extended-precision indicator survives reset()
 
     def configs(self, tier):
         for (s, n, f) in [(True, 8, 2), (False, 1, 0), (True, 52, 60), (True, 64, 3), (False, 128, 0)]:
